@@ -203,6 +203,10 @@ pub fn panic_msg(p: Box<dyn std::any::Any + Send>) -> String {
 
 /// Silence the default panic printer (panics are caught and judged).
 pub fn install_quiet_panic_hook() {
+    // VERIF_LOUD_PANICS=1 keeps the default printer (debugging the harness)
+    if std::env::var("VERIF_LOUD_PANICS").is_ok() {
+        return;
+    }
     std::panic::set_hook(Box::new(|_| {}));
 }
 
